@@ -450,7 +450,39 @@ def twins_prop(a, b):
     return None
 
 
+REBIND = [
+    "do eval('NULL = 0') catch all 0 end",
+    "do eval('def NULL = 1') catch all 0 end",
+    "do eval('[NULL] = [2]') catch all 0 end",
+    "(fn() do eval('NULL = 3') catch all 0 end)()",
+    "do eval('def f(NULL) NULL; f(4)') catch all 0 end",
+]
+
+
+def rebind_prop(stmt):
+    """What a rendered text means must not depend on what the program did
+    before: the words of the notation (NULL) cannot be given another value."""
+    src = (f"def v = [NULL, <<<'a' => NULL>>>, <<NULL>>]; def t = string(v); "
+           f"{stmt}; [eval(t) == v, string(eval(t)) == t, "
+           f"string([NULL]) == '[NULL]', NULL == v[0]]")
+    out = cklrun.run(src, budget=20)
+    if out[0] != "value":
+        return Finding(f"C08|rebinding|{out[0]}",
+                       f"{src} -> {cklrun.short(out)}")
+    got = cklrun.to_model(out[1])
+    if got != [True, True, True, True]:
+        return Finding("C08|roundtrip|notation-word-rebound",
+                       f"{src} -> {got!r}: after `{stmt}` the text of a "
+                       f"value no longer evaluates to that value")
+    return None
+
+
 def part_twins(part):
+    for stmt in REBIND:
+        part.count()
+        part.distinct()
+        part.cls("rebinding", stmt)
+        part.collect(rebind_prop(stmt), {"kind": "rebind", "stmt": stmt})
     for a, b in TWINS:
         part.count()
         part.distinct()
@@ -463,6 +495,8 @@ def prop(case):
     k = case["kind"]
     if k == "twins":
         return twins_prop(case["a"], case["b"])
+    if k == "rebind":
+        return rebind_prop(case["stmt"])
     if k == "value":
         v = dec(case["value"])
         vs = [dec(x) for x in case.get("variants", [])]
